@@ -22,6 +22,7 @@ type FuncReport struct {
 	PanicExits  int
 	Closures    int
 	Notes       []string
+	Uncovered   []string // closures explicitly outside the contract ("closure partial")
 }
 
 func pkgShort(fn *ssa.Function) string {
